@@ -294,3 +294,97 @@ def main(tier, t0):
         '(field additions are opaque atoms here).',
         ['rustc MIR + const evaluation', 'Fq/Fq2 operations meet their contracts; sgn0/negate_if contracts (C18)', 'Euler criterion / structure of roots of unity in Fq2'],
         ['monomial (exponent-vector) reasoning only; sums are opaque'])
+
+
+# ---------------------------------------------------------------- the helper's polynomials (sum-of-monomials domain)
+def rule_helper_polys(fx, rep):
+    """x0 = N/D with N = B(1 + xi^2 t^4 + xi t^2), D = -A(xi^2 t^4 + xi t^2) (exceptional: D = A xi), and
+    g(x0) = gN/gD with gD = D^3, gN = N^3 + A N D^2 + B D^3 -- the RFC's x1 and the curve's right-hand side,
+    homogenised.  Sums are kept as sums of monomials; products of two sums are interned, never expanded."""
+    from exp import Sum
+    sswu = C.check_sswu_consts(fx, core_report_sink())
+    helper = 'bls12_381::osswu_map::osswu_help'
+    paths = set()
+    for g_, v in sswu.items():
+        paths.add(callee(v[3]).get('res') or callee(v[3])['def'])
+    if len(paths) == 1:
+        helper = paths.pop()
+    if fx.body(helper) is None:
+        rep.fail('POLY', 'helper:anchor', 'SSWU helper not found')
+        return
+    I = exp.Interp(fx, 'mul')
+    I.sums = True
+    at = Lin.atom
+    try:
+        res = I.run(helper, [('byref', at('t')), ('byref', at('xi')), ('byref', at('A')), ('byref', at('B'))])
+    except (exp.NotDerivable, exp.Budget) as e:
+        rep.fail('POLY', 'helper:derivable', 'not derivable: %s' % e, fx.fn(helper)['span'])
+        return
+    where = fx.fn(helper)['span']
+    nd = Sum({frozenset({('xi', 2), ('t', 4)}): 1, frozenset({('xi', 1), ('t', 2)}): 1})
+    N_want = nd.add(Sum.of(Lin())).mul_mono(at('B'))
+    bad = []
+    for pth, ret, _ in res:
+        if not (isinstance(ret, exp.Agg) and len(ret.items) == 7):
+            bad.append('unexpected result shape')
+            continue
+        usq, xi_usq, xi2_u4, x0_num, x0_den, gx0_num, gx0_den = ret.items
+        labs = pth.labels
+        exceptional = bool(labs) and labs[0][1] != 0
+        tested = labs[0][0][1] if labs and isinstance(labs[0][0], tuple) and labs[0][0][0] == 'is_zero' else None
+        if not (isinstance(tested, Sum) and tested == nd):
+            bad.append('the branch does not test xi^2 t^4 + xi t^2 (tests %r)' % (tested,))
+        if not (isinstance(x0_num, Sum) and x0_num == N_want):
+            bad.append('x-numerator is not B(1 + xi^2 t^4 + xi t^2)')
+        if exceptional:
+            D_want = Lin({'A': 1, 'xi': 1})
+            okd = x0_den == D_want
+        else:
+            okd = isinstance(x0_den, Sum) and x0_den == nd.mul_mono(at('A')).scale(-1)
+            D_want = None
+        if not okd:
+            bad.append('x-denominator on the %s path is %r' % ('exceptional' if exceptional else 'generic', x0_den))
+            continue
+        Nm = I._intern(x0_num)
+        Dm = I._intern(x0_den) if not exceptional else D_want
+        if not (isinstance(gx0_den, Lin) and gx0_den == Dm.scale(3)):
+            bad.append('g-denominator is %r, expected the cube of the x-denominator' % (gx0_den,))
+        want = Sum.of(Nm.scale(3)).add(Sum.of(Nm.add(Dm.scale(2)).add(at('A')))).add(Sum.of(Dm.scale(3).add(at('B'))))
+        got = gx0_num if isinstance(gx0_num, Sum) else (Sum.of(gx0_num) if isinstance(gx0_num, Lin) else None)
+
+        def expand_linear(sm):
+            out = Sum()
+            for mono, coef in sm.t.items():
+                m = Lin(dict(mono))
+                ints = [(a, k) for a, k in m.t.items() if a.startswith('S#')]
+                if len(ints) == 1 and ints[0][1] == 1:
+                    rest = Lin({a: k for a, k in m.t.items() if a != ints[0][0]})
+                    out = out.add(I.interned[int(ints[0][0][2:])].mul_mono(rest).scale(coef))
+                else:
+                    out = out.add(Sum({mono: coef}))
+            return out
+        if got is not None:
+            got, want = expand_linear(got), expand_linear(want)
+        if got is None or not (got == want):
+            bad.append('g-numerator on the %s path is not N^3 + A N D^2 + B D^3' % ('exceptional' if exceptional else 'generic'))
+    rep.check(not bad and len(res) == 2, 'POLY', 'helper:rational-functions',
+              'x0 = B(1+s)/(-A s) with s = xi^2 t^4 + xi t^2 (exceptional s = 0: denominator A xi); g(x0) = (N^3 + A N D^2 + B D^3)/D^3 on both paths',
+              '; '.join(bad[:3]), where, construct=helper)
+
+
+class _Sink:
+    """Report stand-in for helper calls whose obligations are recorded elsewhere."""
+    def __getattr__(self, k):
+        return lambda *a, **kw: True
+
+
+def core_report_sink():
+    return _Sink()
+
+
+_rules15 = rules
+
+
+def rules(fx, rep):
+    _rules15(fx, rep)
+    rule_helper_polys(fx, rep)
